@@ -564,7 +564,17 @@ func checkC10on(c CaseC10, subject map[string]interface{}, sep, path string, sp 
 					xout, uerr := x2j.XmlUpdateValsForPath(xb, map[string]interface{}{c.Key: "NEWVAL"}, path, sp...)
 					_, cerr := xm.UpdateValuesForPath(map[string]interface{}{c.Key: "NEWVAL"}, path, sp...)
 					want, _ := xm.Xml()
-					if (uerr == nil) != (cerr == nil) || (uerr == nil && string(xout) != string(want)) {
+					// the returned document must stand for the Map the core call leaves (C10 speaks about the Map; that the
+					// wrapper's text is the core encoder's text is C20's clause, checked there byte for byte)
+					same := (uerr == nil) == (cerr == nil)
+					if same && uerr == nil {
+						gm, gerr := mxj.NewMapXml(xout)
+						wm, werr2 := mxj.NewMapXml(want)
+						// either reading: the text decodes to the updated Map itself, or to what the core encoder's text decodes to
+						// (the two differ when decoding adds entries, e.g. IncludeTagSeqNum)
+						same = (gerr == nil && reflect.DeepEqual(gm, xm)) || ((gerr == nil) == (werr2 == nil) && (gerr != nil || reflect.DeepEqual(gm, wm)))
+					}
+					if !same {
 						return failf("wrapper-mismatch", "x2j.XmlUpdateValsForPath(%s, %q) = %s,%v; core gives %s,%v", xb, path, xout, uerr, want, cerr)
 					}
 				}
